@@ -389,6 +389,81 @@ func (c *labelCtx) addLabel(lin *kit.LinEval, f *ssa.Function, call *ssa.Call, k
 // lockstepInits walks the phi chain of the label: every non-initial edge must be `phi + 1` computed
 // in the block of the add call; returns the initial values.
 func lockstepInits(label ssa.Value, add *ssa.Call) ([]ssa.Value, string) {
+	// form `add(S[i], base+i)` with i the index of the loop over S: element i gets base+i, so the
+	// labels advance with the elements by construction; the first label is base
+	if b, ok := label.(*ssa.BinOp); ok && b.Op == token.ADD {
+		if _, idx, isElem := elemIndex(add.Call.Args[1]); isElem {
+			for _, pair := range [][2]ssa.Value{{b.X, b.Y}, {b.Y, b.X}} {
+				base, i := pair[0], pair[1]
+				if i != idx {
+					continue
+				}
+				// i counts from 0 in steps of one
+				ib, isB := i.(*ssa.BinOp)
+				var ph *ssa.Phi
+				start := int64(0)
+				if isB && ib.Op == token.ADD {
+					if k, isC := kit.ConstInt(ib.Y); isC && k == 1 {
+						ph, _ = ib.X.(*ssa.Phi)
+						start = 1
+					}
+				} else {
+					ph, _ = i.(*ssa.Phi)
+				}
+				if ph == nil {
+					continue
+				}
+				okCounter := true
+				for _, e := range ph.Edges {
+					if k, isC := kit.ConstInt(e); isC {
+						if k+start != 0 {
+							okCounter = false
+						}
+						continue
+					}
+					eb, isB := e.(*ssa.BinOp)
+					if !isB || eb.Op != token.ADD || eb.X != ssa.Value(ph) {
+						okCounter = false
+						continue
+					}
+					if k, isC := kit.ConstInt(eb.Y); !isC || k != 1 {
+						okCounter = false
+					}
+				}
+				if !okCounter {
+					continue
+				}
+				// base does not change inside the element loop
+				inner := naturalLoop(ph.Block())
+				if bi, isInstr := base.(ssa.Instruction); isInstr && bi.Block() != nil && inner[bi.Block()] {
+					continue
+				}
+				// base may itself be carried by an enclosing loop that adds one slice per round:
+				// base' = base + len(S) keeps it in step with the number of headers added
+				if op, isPhi := base.(*ssa.Phi); isPhi && len(cycleOf(op.Block())) > 0 && cycleOf(op.Block())[add.Block()] {
+					slice, _, _ := elemIndex(add.Call.Args[1])
+					var outerInits []ssa.Value
+					okOuter := true
+					for _, e := range op.Edges {
+						e = kit.Strip(e)
+						if eb, isB := e.(*ssa.BinOp); isB && eb.Op == token.ADD && kit.Strip(eb.X) == ssa.Value(op) {
+							lc := isCallTo(eb.Y, "builtin.len")
+							if lc == nil || kit.Strip(lc.Call.Args[0]) != kit.Strip(slice) {
+								okOuter = false
+							}
+							continue
+						}
+						outerInits = append(outerInits, e)
+					}
+					if okOuter && len(outerInits) > 0 {
+						return outerInits, ""
+					}
+					continue
+				}
+				return []ssa.Value{base}, ""
+			}
+		}
+	}
 	var inits []ssa.Value
 	seen := map[ssa.Value]bool{}
 	chain := map[ssa.Value]bool{}
@@ -556,4 +631,26 @@ func (c *labelCtx) ctorAtoms(lin *kit.LinEval, f *ssa.Function) map[string]kit.L
 		}
 	})
 	return m
+}
+
+// naturalLoop returns the blocks of the natural loop headed by h: h and everything that reaches
+// one of its back edges (predecessors dominated by h) without passing through h.
+func naturalLoop(h *ssa.BasicBlock) map[*ssa.BasicBlock]bool {
+	out := map[*ssa.BasicBlock]bool{h: true}
+	var st []*ssa.BasicBlock
+	for _, p := range h.Preds {
+		if h.Dominates(p) {
+			st = append(st, p)
+		}
+	}
+	for len(st) > 0 {
+		x := st[len(st)-1]
+		st = st[:len(st)-1]
+		if out[x] {
+			continue
+		}
+		out[x] = true
+		st = append(st, x.Preds...)
+	}
+	return out
 }
